@@ -347,6 +347,7 @@ def _matches_short_net_pattern(parts: list[str]) -> bool:
 
 
 _USE_DECLARATION = re.compile(r"^\s*(?:pub\s+)?use\s+([^;]+);", re.MULTILINE)
+_RUST_COMMENT = re.compile(r"//[^\n]*|/\*.*?\*/", re.DOTALL)
 
 
 def _names_imported_from_other_crates(code: str) -> set[str]:
@@ -356,6 +357,7 @@ def _names_imported_from_other_crates(code: str) -> set[str]:
     imported from an async runtime's drop-in module.
     """
     names: set[str] = set()
+    code = _RUST_COMMENT.sub("", code)
     for match in _USE_DECLARATION.finditer(code):
         path = match.group(1).strip()
         if path.startswith(("std::", "::std::", "core::", "alloc::")):
